@@ -27,6 +27,9 @@ FIRST = {
     "r2_c03_a2_empty_first_treated_as_nullable": "MISSED (unproductive nonterminals were all right-recursive: FIRST never empty)",
     "r2_c03_b1_lookahead_inherited_on_empty_first": "MISSED (same)",
     "r3_c14_b1_first_fit_merge_hash_discovery": "MISSED (no LR(1)-but-not-LALR(1) grammar with three core-equal states of non-transitive compatibility)",
+    "r3_c03_a2_empty_enum_first_default_nullable": "MISSED (rule-less nonterminals were never referenced, because the pinned tree panics on them)",
+    "r3_c03_b1_merge_unless_rr_conflict_stale_transition": "MISSED (no LR(1)-only grammar whose contexts have different depths / recursive wrappers; the change also makes generate hang on ~5 % of the workload, which at that time hung the check itself)",
+    "r3_c03_c1_conflict_aware_merge_stale_transition": "MISSED (same mechanism as r3_c03_b1, written independently)",
 }
 
 
